@@ -6,10 +6,19 @@ ID=${1:?property id}; TIER=${2:-${VERIF_TIER:-quick}}
 cd "$(dirname "$0")"
 . ./env.sh
 mkdir -p bin evidence
-cp /repo/go.sum harness/go.sum
+# The registered checks always run against /repo. VERIF_REPO (never set by
+# MANIFEST commands) lets a background sweep of my own run against a copy, e.g.
+# a patched scratch worktree, without touching /repo.
+REPO=${VERIF_REPO:-/repo}
+cp $REPO/go.sum harness/go.sum
+MODFLAG=
+if [ "$REPO" != /repo ]; then
+  sed "s|=> /repo|=> $REPO|" harness/go.mod > harness/alt.mod; cp harness/go.sum harness/alt.sum
+  MODFLAG=-modfile=alt.mod
+fi
 build() { # $1 = output, rest = flags
   local out=$1; shift
-  (cd harness && go build -tags verif "$@" -o ../bin/$out ./cmd/vcheck) 2>bin/build.$out.log
+  (cd harness && go build $MODFLAG -tags verif "$@" -o ../bin/$out ./cmd/vcheck) 2>bin/build.$out.log
   local rc=$?
   if [ $rc -ne 0 ]; then
     echo "BUILD FAILED ($out): /repo does not compile with the harness" >&2
@@ -24,7 +33,7 @@ build vcheck
 case "$ID:$TIER" in
   C17:*|C11:thorough|C01:thorough) build vcheck-race -race ;;
   C08:*) # the repository's own command line tool, driven as OS processes
-    (R=$(pwd); cd /repo && go build -o $R/bin/garbled.$$ ./apps/garbled) 2>bin/build.garbled.log && mv bin/garbled.$$ bin/garbled || {
+    (R=$(pwd); cd $REPO && go build -o $R/bin/garbled.$$ ./apps/garbled) 2>bin/build.garbled.log && mv bin/garbled.$$ bin/garbled || {
       echo "BUILD FAILED (apps/garbled)" >&2; cat bin/build.garbled.log >&2; exit 3; } ;;
 esac
 flock -u 9
